@@ -81,8 +81,10 @@ func init() {
 
 	type pw struct{ name, value string }
 	s71 := strings.Repeat("x", 71)
+	// around bcrypt's 72-byte input limit: the tool must either refuse a
+	// longer password or hash all of it
 	pws := []pw{{"empty", ""}, {"a", "a"}, {"b", "b"}, {"a-nul", "a\x00"},
-		{"s71", s71}, {"s72", s71 + "x"}}
+		{"s71", s71}, {"s72", s71 + "x"}, {"s73", s71 + "xy"}, {"s73b", s71 + "xz"}, {"s80", s71 + "x" + "12345678"}}
 
 	iterations := []int{1, 2, 4096}
 	lengths := []int{1, 16, 32}
@@ -120,6 +122,12 @@ func init() {
 				if !found {
 					rep.Unsupported = append(rep.Unsupported, alg)
 				}
+				return true
+			}
+			if alg == "bcrypt" && len(p.value) > 72 {
+				// refusing what the algorithm cannot hash in full is the
+				// correct answer
+				outcomes[alg+"/refused-longer-than-72-bytes"] = true
 				return true
 			}
 			rep.MakeErrors++
@@ -169,6 +177,13 @@ func init() {
 				continue
 			}
 			if alg == "pbkdf2" && verifC08HMACEquivalent(p.value, q.value) {
+				rep.NulEquiv++
+				continue
+			}
+			if alg == "bcrypt" && len(p.value) <= 72 && len(q.value) > 72 && q.value[:72] == p.value {
+				// the verifying side of bcrypt reads 72 bytes of its input:
+				// a property of the algorithm (the record itself was made
+				// from the whole password)
 				rep.NulEquiv++
 				continue
 			}
